@@ -176,8 +176,26 @@ func canonBits(v []float64) string {
 func encodeResults(rs []res, ntable int) string {
 	pb := newBuilder(ntable) // projection-only builder
 	var parts []string
-	for _, r := range rs {
-		p := pb.VerifProject(r.toResult())
+	// the Results the Builder will be given: hand-made, or what the Reader makes of the log (units tidied)
+	var results []*benchfmt.Result
+	if viaReader {
+		ident := make([]int, len(rs))
+		for i := range ident {
+			ident[i] = i
+		}
+		rd := benchfmt.NewReader(strings.NewReader(logText(rs, ident)), "bench.log")
+		for rd.Scan() {
+			if rec, ok := rd.Result().(*benchfmt.Result); ok {
+				results = append(results, rec.Clone())
+			}
+		}
+	} else {
+		for _, r := range rs {
+			results = append(results, r.toResult())
+		}
+	}
+	for _, res := range results {
+		p := pb.VerifProject(res)
 		if !p.Kept {
 			continue
 		}
@@ -792,6 +810,75 @@ func reunit(r *hx.Rand, rs []res) {
 			rs[i].units = append(rs[i].units, unitPool[u])
 			rs[i].vals = append(rs[i].vals, float64(1000*(u+1)+r.Intn(40))+0.5)
 		}
+	}
+}
+
+// addDupUnits makes some results carry one unit two or three times with different values (every pair of a line
+// is one measurement of its unit's cell); with tidy, the repeat may use another spelling that the Reader tidies to
+// the same unit (MB/s ~ B/s, ns/op ~ sec/op).
+func addDupUnits(r *hx.Rand, rs []res, tidy bool) {
+	for i := range rs {
+		if len(rs[i].units) == 0 || r.Chance(1, 3) {
+			continue
+		}
+		reps := 1 + r.Intn(2)
+		for k := 0; k < reps; k++ {
+			j := r.Intn(len(rs[i].units))
+			u, v := rs[i].units[j], rs[i].vals[j]+float64(100*(k+1))+float64(r.Intn(8))
+			if tidy && r.Bool() {
+				switch u {
+				case "MB/s":
+					u, v = "B/s", v*1e6+3
+				case "B/s":
+					u, v = "MB/s", float64(1+r.Intn(50))
+				case "ns/op":
+					u, v = "sec/op", float64(1+r.Intn(9))/8
+				case "sec/op":
+					u, v = "ns/op", float64(1000+r.Intn(50))
+				}
+			}
+			// insert at a random position so that the repeats are not always last
+			at := r.Intn(len(rs[i].units) + 1)
+			rs[i].units = append(rs[i].units[:at], append([]string{u}, rs[i].units[at:]...)...)
+			rs[i].vals = append(rs[i].vals[:at], append([]float64{v}, rs[i].vals[at:]...)...)
+		}
+	}
+}
+
+func dupUnitCases(r *hx.Rand) {
+	mk := func(role string, units []string, vals []float64) res {
+		return res{table: []string{"amd64", "linux"}, bench: "Foo", exp: expsA[0], ser: stampsA[0], role: role, nh: "n0", dh: "d0", units: units, vals: vals}
+	}
+	w := []res{mk("num", []string{"widgets/op", "widgets/op"}, []float64{100, 200}), mk("num", []string{"widgets/op", "widgets/op"}, []float64{300, 400}),
+		mk("den", []string{"widgets/op", "widgets/op"}, []float64{150, 250})}
+	m := []res{mk("num", []string{"ns/op", "B/op", "allocs/op", "B/op"}, []float64{10, 64, 2, 96}), mk("den", []string{"ns/op", "B/op", "allocs/op", "B/op"}, []float64{11, 65, 3, 97})}
+	t := []res{mk("num", []string{"MB/s", "B/s"}, []float64{5, 7000000}), mk("den", []string{"B/s", "MB/s"}, []float64{6000000, 8})}
+	for pol := 0; pol < 2; pol++ {
+		seriesCase(w, 0, pol, r, []string{"corpus", "dupunit"})
+		seriesCase(m, 2, pol, r, []string{"corpus", "dupunit", "multiunit"})
+	}
+	viaReader = true
+	seriesCase(w, 0, 0, r, []string{"corpus", "dupunit", "reader"})
+	seriesCase(m, 0, 1, r, []string{"corpus", "dupunit", "reader", "multiunit"})
+	seriesCase(t, 0, 0, r, []string{"corpus", "dupunit", "reader", "tidy"})
+	viaReader = false
+	n := hx.N(40, 600)
+	for i := 0; i < n; i++ {
+		rs, nt, tags := genSeries(r, 2+r.Intn(6))
+		rd := r.Chance(1, 2)
+		if rd {
+			for a := range rs {
+				for b := range rs[a].units {
+					rs[a].units[b] = []string{"MB/s", "ns/op", "allocs/op"}[b%3]
+					rs[a].vals[b] = float64(1 + r.Intn(60))
+				}
+			}
+			tags = append(tags, "reader")
+		}
+		addDupUnits(r, rs, rd)
+		viaReader = rd
+		seriesCase(rs, nt, r.Intn(2), r, append(tags, "dupunit"))
+		viaReader = false
 	}
 }
 
@@ -1805,6 +1892,7 @@ func main() {
 	// 2-4 units in varying order; every selected unit gets its own table holding exactly ITS measurements
 	filteredCases(r)
 	readerCases(r)
+	dupUnitCases(r)
 	nl := hx.N(60, 1000)
 	for i := 0; i < nl; i++ {
 		rs, nt, tags := genSeries(r, 6+r.Intn(20))
